@@ -9,7 +9,13 @@ def run(tier):
     # deletions from height-4 trees (the rotation case insertions never produce needs height 4): a time-boxed slice in the quick tier
     c.run_pkg(REPO, "./internal/vkgo/pkg/algo", os.path.join(REPO, "internal/vkgo/pkg/algo"), "algo", [os.path.join(VERIF, "harness/algo/zz_verif_c41.go")],
               "^VerifC41TreeDeleteStep$", params=dict(params, HD=4), max_models=4, wall="120s" if q else "3600s", soft_trunc="record")
-    c.assumptions += ["inductive step: pre-state is ANY AVL tree of height <= H (all shapes enumerated, keys symbolic, only BST order + exact heights assumed); comparator is int32 <",
+    # the structural half of the same step without observer probes: exhaustive over all 315 height-4 shapes in both tiers
+    c.run_pkg(REPO, "./internal/vkgo/pkg/algo", os.path.join(REPO, "internal/vkgo/pkg/algo"), "algo", [os.path.join(VERIF, "harness/algo/zz_verif_c41.go")],
+              "^VerifC41TreeDeleteShape$", params=dict(params, HD=4), max_models=4, wall="400s" if q else "3600s", soft_trunc="record")
+    if not q:
+        c.run_pkg(REPO, "./internal/vkgo/pkg/algo", os.path.join(REPO, "internal/vkgo/pkg/algo"), "algo", [os.path.join(VERIF, "harness/algo/zz_verif_c41.go")],
+                  "^VerifC41TreeDeleteShape$", params=dict(params, HD=5), max_models=4, wall="3600s", soft_trunc="record", label="delete-shape-h5")
+    c.assumptions += ["VerifC41TreeDeleteShape: one Delete of any key from ANY AVL tree of height exactly 4 (5 in the thorough tier, time-boxed), checking balance, exact heights, in-order contents and allocation accounting (no observer probes)", "inductive step: pre-state is ANY AVL tree of height <= H (all shapes enumerated, keys symbolic, only BST order + exact heights assumed); comparator is int32 <",
                       "VerifC41TreeDeleteStep: one Delete from an arbitrary AVL tree of height exactly 4 (time-boxed slice in the quick tier, exhaustive in the thorough tier)", "circular slice pre-state: ANY capacity in {0,1,2,4,..2^caplog}, any read/write positions satisfying the documented invariant, symbolic contents",
                       "Index/IndexRef are only called with 0 <= pos < Len or pos < 0 (out-of-range positive positions are outside the property)"]
     return c.finish(bounds=params, outside=["trees higher than H before the step", "histories longer than K / CK operations", "capacities above 2^caplog", "element types other than int32"])
